@@ -131,7 +131,7 @@ Qed.
 Lemma se_op_set_name s e nm : struct_eq s (fst (op_set_name s e nm)).
 Proof.
   unfold op_set_name. destruct nm; [apply se_dict_set|].
-  destruct (has_key _ _ _); [apply se_dict_del|apply se_dict_set].
+  destruct (has_key _ _ _); [apply se_dict_del|apply struct_eq_refl].
 Qed.
 
 Lemma se_op_del_name s e : struct_eq s (fst (op_del_name s e)).
